@@ -68,9 +68,7 @@ pub fn run_mode(env: &mut Env, c04_mode: bool) -> Outcome {
     // C04 only: a server that (legally, like pre-Vista ones) sends no MsvAvTimestamp. The client may refuse it, but
     // whatever token it emits must still be well formed.
     let no_timestamp = c04_mode && cfg.nla && ctxrc.borrow_mut().chance("server_without_timestamp", 1, 8);
-    let no_key_exchange = cfg.nla && ctxrc.borrow_mut().chance("server_declines_key_exchange", 1, 12);
-    let nla_res = if cfg.nla { Some(crate::scen::install_nla_custom(&world, &cfg, |n| { if no_timestamp { n.challenge_cfg.av_pairs.retain(|(id, _)| *id != 7); } if no_key_exchange { n.challenge_flags_clear |= 0x4000_0000; } })) } else { None };
-    if no_key_exchange { ctxrc.borrow_mut().probe("key_exchange_declined"); }
+    let nla_res = if cfg.nla { Some(crate::scen::install_nla_custom(&world, &cfg, |n| { if no_timestamp { n.challenge_cfg.av_pairs.retain(|(id, _)| *id != 7); } })) } else { None };
     if no_timestamp { ctxrc.borrow_mut().probe("challenge_without_timestamp"); }
     let mut s = match Session::connect(world, &cfg) {
         Ok(s) => s,
